@@ -6,6 +6,7 @@
     [repaired] / [repaired_except_pinned] / the pinned defect: see Properties_C05.v.  [mtag_ok], [mtag_index_ok]
     are the domain of the statement (decidable, checked by the extracted oracle). *)
 From Coq Require Import ZArith Bool String List.
+Require NixV.Gen.GenAccess NixV.Access.AccessBridgeModels.
 Require Import NixV.Base.Prelude NixV.Base.F64 NixV.Gen.GenDimensions.
 Require Import NixV.Access.Retrieval NixV.Access.RetrievalSpec NixV.Access.RetrievalAxis NixV.Access.RetrievalDomain
                NixV.Access.RetrievalAssemble NixV.Access.RetrievalTag NixV.Access.RetrievalMTag
@@ -144,6 +145,13 @@ Example mtag_list_nonvacuous :
   mtag_region (incl_of RangeMatch_Exclusive) ex_mtag ex_array 1 [4; 0] [2; 2].
 Proof. exact RetrievalClosed.mtag_list_nonvacuous. Qed.
 Print Assumptions mtag_list_nonvacuous.
+
+(** The window test applied to every retrieved region is the code regenerated from src/util/dataAccess.cpp on this run *)
+Theorem C06_window_test_is_generated : forall shape position count, (List.length shape < 200)%nat ->
+  NixV.Gen.GenAccess.positionAndExtentInData position count shape
+  = Ok (Retrieval.positionAndExtentInData shape position count).
+Proof. exact NixV.Access.AccessBridgeModels.retrieval_extent_test_is_generated. Qed.
+Print Assumptions C06_window_test_is_generated.
 
 (** OPEN OBLIGATION while the defects of DESIGN section 9 items 4, 19, 28, 31 are in the tree (see Properties_C05.v) *)
 Theorem current_is_repaired : current_behaviour = repaired_except_pinned.
